@@ -664,6 +664,54 @@ def run_proc(case, stt):
     stt.label("kind_" + case["cfg"]["kind"])
 
 
+# -- a reader written against the documented extension point ---------------------------------------------------------------------------------
+
+
+@st.composite
+def user_reader_case(draw):
+    L = draw(st.integers(1, 60))
+    ss = draw(st.sampled_from([[], [3], [2, 2], [1]]))
+    o = draw(st.integers(0, L))
+    n = draw(st.integers(0, L - o))
+    chunks = draw(st.sampled_from(["default", "half_time", "ones", "int", "whole"]))
+    return {"L": L, "ss": ss, "o": o, "n": n, "chunks": chunks, "t0": draw(st.one_of(st.none(), G.time0())), "rate": draw(G.freq_q(0, 8))}
+
+
+def run_user_reader(case, stt):
+    """`BaseReader` documents one extension point: implement `_read_array(self, offset, n, /)`.  A reader written exactly so (it returns the
+    sample indices) must serve every read the base class offers -- eager and lazy, with and without `chunks` -- position-faithfully."""
+    import pulsarbat as pb
+    import dask.array as da
+
+    class IndexReader(pb.readers.BaseReader):
+        def _read_array(self, offset, n, /):
+            x = np.arange(offset, offset + n, dtype=np.float64).reshape((-1,) + (1,) * (self.ndim - 1))
+            return x * np.ones(self.sample_shape) + 0.25 * np.arange(int(np.prod(self.sample_shape)) or 1).reshape(self.sample_shape or ())
+
+    L, ss, o, n = case["L"], tuple(case["ss"]), case["o"], case["n"]
+    t0 = G.mk_time(case["t0"])
+    with lib("BaseReader subclass construction"):
+        r = IndexReader(shape=(L,) + ss, dtype=np.float64, sample_rate=O.q(case["rate"]), start_time=t0)
+    want = r._read_array(o, n)
+    ch = {"default": None, "half_time": (max(1, n // 2),) + (-1,) * len(ss), "ones": (-1,) + (1,) * len(ss), "int": max(1, n // 3 or 1),
+          "whole": (-1,) * (1 + len(ss))}[case["chunks"]]
+    kw = {} if ch is None else {"chunks": ch}
+    with lib("read(%d, %d)" % (o, n)):
+        z = r.read(o, n)
+    with lib("read(%d, %d, use_dask=True, %s)" % (o, n, kw)):
+        zd = r.read(o, n, use_dask=True, **kw)
+        zd2 = r.dask_read(o, n, **kw)
+    check(isinstance(zd.data, da.Array) and isinstance(zd2.data, da.Array), "lazy read returned {}", type(zd.data).__name__)
+    for w, q in (("read", z), ("read(use_dask=True%s)" % (", chunks=%s" % (ch,) if kw else ""), zd), ("dask_read", zd2)):
+        with lib(w + " of a reader implementing _read_array(self, offset, n, /) -> samples", any_exception=True):  # (the library built that graph)
+            got = np.asarray(q.data)
+        check(type(q) is pb.Signal and got.shape == want.shape and bits_equal(got, want), "{}({}, {}) of a user-defined reader: samples differ", w, o, n)
+        if t0 is not None:
+            check(abs(O.T(q.start_time) - (O.T(t0) + F(o) / O.fq(case["rate"]))) <= O.time_tol(1, F(o) / O.fq(case["rate"])), "{}: start_time is not time_at(offset)", w)
+    stt.nt(bool(kw) and n >= 2)
+    stt.label("chunks_" + case["chunks"])
+
+
 SUBS = [
     MachineSub("read_histories", ReaderMachine,
                "rule-based machine per reader: the four sample files and files written by the check (VDIF real/complex with 1-4 threads, DADA "
@@ -681,6 +729,10 @@ SUBS = [
     Sub("process_scheduler_reads", proc_case(), run_proc,
         "lazy reads computed with dask's multiprocess scheduler (the reader object is pickled into the workers) for every file kind and reader "
         "option; non-trivial = a lower-sideband reader", quick=5, thorough=150, pieces_quick=1, pieces_thorough=1, budget_quick=60),
+    Sub("user_reader", user_reader_case(), run_user_reader,
+        "a BaseReader subclass implementing only the documented _read_array(self, offset, n, /) (it returns sample indices): eager read, "
+        "read(use_dask=True) and dask_read with default and explicit chunks (split time axis, single-sample sample axes, an integer) return "
+        "the requested samples and start time; non-trivial = explicit chunks and n >= 2", quick=300, thorough=3000),
 ]
-SUBS[-1].in_parent = True  # starts worker processes itself
 
+[s for s in SUBS if s.name == "process_scheduler_reads"][0].in_parent = True  # starts worker processes itself
